@@ -27,18 +27,22 @@ def evaluate(expr: str):
         if token.type == TokenType.Number:
             n_stack.append(token.value)
         elif token.type == TokenType.Op2:
+            if len(n_stack) < 2:
+                raise MathExpressionException('Invalid expression')
             n2 = n_stack.pop()
             n1 = n_stack.pop()
             f = ops2[token.value]
             n_stack.append(f(n1, n2))
         elif token.type == TokenType.Op1:
+            if not n_stack:
+                raise MathExpressionException('Invalid expression')
             n1 = n_stack.pop()
             f = ops1[token.value]
             n_stack.append(f(n1))
         else:
-            raise Exception('Invalid expression')
+            raise MathExpressionException('Invalid expression')
 
-    if len(n_stack) > 1:
-        raise Exception('Invalid Expression (parity)')
+    if len(n_stack) != 1:
+        raise MathExpressionException('Invalid Expression (parity)')
 
     return n_stack[0]
